@@ -16,6 +16,8 @@ pub const NOW_N: i64 = 500_000_000;
 /// Every crafted report gets different values in the fields no property lets the daemon depend on
 /// (stratum, source address, last/RMS offset, frequency, residual frequency, skew): a chrony float
 /// word taken from a small table, the stratum cycling through 1, 2, 3, 10, 15, 0.
+/// reference id "any": replaced by one of a table of real-world values, the same for reports that are otherwise equal
+pub const ANY_REF: u32 = 0xA11_0000;
 static VARIANT: std::sync::atomic::AtomicU32 = std::sync::atomic::AtomicU32::new(0);
 const FILL: [u32; 6] = [0, 0x0180_0000, 0xF27F_FFFF, 0x0A12_3456, 0xFE80_0001, 0x7FFF_FFFF];
 
@@ -36,6 +38,9 @@ pub fn mk_tracking(ref_id: u32, leap: u16, ref_s: i64, ref_n: u32, corr: u32, de
         }
     };
     let fill = |k: usize| FILL[(v + k) % FILL.len()];
+    // where the reference id is of no concern to the code under test (the bound, the classification, the updater:
+    // callers pass ANY_REF) it takes the values chronyd really reports, its own local reference among them
+    let ref_id = if ref_id == ANY_REF { [0u32, 7, 0x7F7F_0101, 0x4E54_5031, 0x5048_4330, 0xFFFF_FFFF, 0x7F7F_0101][v % 7] } else { ref_id };
     let mut b: Vec<u8> = Vec::with_capacity(128);
     b.put_u8(6);
     b.put_u8(2);
@@ -93,7 +98,7 @@ pub fn run_bnd(toks: &[&str]) -> String {
     let corr: u32 = p(toks[2]);
     vclock::set_real(NOW_S, NOW_N);
     vclock::enable(true);
-    let t = mk_tracking(0, 0, NOW_S, NOW_N as u32, corr, delay, disp, 0);
+    let t = mk_tracking(ANY_REF, 0, NOW_S, NOW_N as u32, corr, delay, disp, 0);
     let r = std::panic::catch_unwind(|| dverif::extract_bound(t));
     vclock::enable(false);
     match r {
@@ -114,7 +119,7 @@ pub fn run_cls(toks: &[&str]) -> String {
     let (rs, rn) = (r.div_euclid(1_000_000_000) as i64, r.rem_euclid(1_000_000_000) as u32);
     vclock::set_real(NOW_S, NOW_N);
     vclock::enable(true);
-    let t = mk_tracking(0, leap, rs, rn, 0, 0, 0, interval);
+    let t = mk_tracking(ANY_REF, leap, rs, rn, 0, 0, 0, interval);
     let r = std::panic::catch_unwind(|| dverif::extract_bound(t));
     vclock::enable(false);
     match r {
